@@ -1,0 +1,111 @@
+//go:build verif
+
+// Contracts for the deductive checker in /verif (read only with -tags verif).
+
+package sm3
+
+// ---- the streaming digest. Ghost view: dmsg[d] = bytes written since Reset, dlen[d] their number.
+//@ ghost dmsg : (Array Int Int) of digest
+//@ ghost dlen : Int of digest
+
+//@ pred dari(d) := 0 <= d.nx && d.nx < 64 && 0 <= ghost(dlen, d) && d.nx == ghost(dlen, d) % 64 && d.len == ghost(dlen, d) % 18446744073709551616
+//@ pred dbufx(d) := forall j :: 0 <= j && j < d.nx ==> d.x[j] == ghost(dmsg, d)[ghost(dlen, d) - d.nx + j]
+//@ pred dh(d) := forall i :: 0 <= i && i < 8 ==> d.h[i] == SM3F(SM3IV(), ghost(dmsg, d), 0, (ghost(dlen, d) - d.nx) / 64)[i]
+//@ pred dinv(d) := dari(d) && dbufx(d) && dh(d)
+
+// compression of whole blocks: the three assembly tiers are assumed to equal the fold of the
+// compression function (the pure-Go tier is the reference); block only dispatches.
+//@ func blockAVX2 trusted property C01
+//@   requires len(p) % 64 == 0
+//@   ensures forall i :: 0 <= i && i < 8 ==> dig.h[i] == SM3F(old(arr(dig.h)), arr(p), offof(p), len(p) / 64)[i]
+//@   modifies dig.h
+//@ func blockSIMD trusted property C01
+//@   requires len(p) % 64 == 0
+//@   ensures forall i :: 0 <= i && i < 8 ==> dig.h[i] == SM3F(old(arr(dig.h)), arr(p), offof(p), len(p) / 64)[i]
+//@   modifies dig.h
+//@ func blockAMD64 trusted property C01
+//@   requires len(p) % 64 == 0
+//@   ensures forall i :: 0 <= i && i < 8 ==> dig.h[i] == SM3F(old(arr(dig.h)), arr(p), offof(p), len(p) / 64)[i]
+//@   modifies dig.h
+
+//@ func block property C01
+//@   requires len(p) % 64 == 0
+//@   ensures forall i :: 0 <= i && i < 8 ==> dig.h[i] == SM3F(old(arr(dig.h)), arr(p), offof(p), len(p) / 64)[i]
+//@   modifies dig.h
+
+// the fold depends only on the bytes it consumes; continuing from a state equal to q blocks
+//@ lemma sm3_ext property C01 vars h0:arr,a:arr,o,a2:arr,o2,n induct n : (forall j :: 0 <= j && j < 64 * n ==> a[o + j] == a2[o2 + j]) ==> SM3F(h0, a, o, n) == SM3F(h0, a2, o2, n)
+//@ lemma sm3_app property C01 vars t1:arr,t0:arr,a:arr,q,a2:arr,o2,m induct m : (q >= 0 && (forall i :: 0 <= i && i < 8 ==> t1[i] == SM3F(t0, a, 0, q)[i]) && (forall j :: 0 <= j && j < 64 * m ==> a[64 * q + j] == a2[o2 + j])) ==> forall i :: 0 <= i && i < 8 ==> SM3F(t1, a2, o2, m)[i] == SM3F(t0, a, 0, q + m)[i]
+
+//@ func (*digest).Reset property C01
+//@   ensures dinv(d) && ghost(dlen, d) == 0
+//@   ghostset dlen[d] := 0
+//@   modifies d.h, d.nx, d.len
+
+//@ func (*digest).Write property C01
+//@   requires dinv(d) && !sameobj(p, d.x)
+//@   let M := ghost(dmsg, d)
+//@   let L := ghost(dlen, d)
+//@   let NX := d.nx
+//@   let PA := arr(p)
+//@   let PO := offof(p)
+//@   let PL := len(p)
+//@   let M2 := CAT(M, L, PA, PO, PL)
+//@   ghostset dmsg[d] := M2
+//@   ghostset dlen[d] := L + PL
+//@   ensures nn == PL && err == nil
+//@   ensures dari(d)
+//@   ensures dbufx(d)
+//@   ensures dh(d)
+//@   modifies d.h, d.x, d.nx, d.len
+//@   apply at entry: sm3_ext(SM3IV(), M2, 0, M, 0, (L - NX) / 64)
+//@   assert at entry: forall i :: 0 <= i && i < 8 ==> d.h[i] == SM3F(SM3IV(), M2, 0, (L - NX) / 64)[i]
+//@   assert before call block#1: 64 * ((L - NX) / 64) == L - NX && 0 < NX && d.nx == 64
+//@   assert before call block#1: forall j :: 0 <= j && j < 64 ==> M2[L - NX + j] == d.x[j]
+//@   assert before call block#1: forall j :: 0 <= j && j < 64 * 1 ==> M2[64 * ((L - NX) / 64) + j] == d.x[j]
+//@   apply before call block#1: sm3_app(arr(d.h), SM3IV(), M2, (L - NX) / 64, arr(d.x), 0, 1)
+//@   assert after call block#1: forall i :: 0 <= i && i < 8 ==> d.h[i] == SM3F(SM3IV(), M2, 0, (L - NX) / 64 + 1)[i]
+//@   assert before call block#2: (L + PL - len(p)) % 64 == 0 && sameobj(p, old(p)) && offof(p) == PO + PL - len(p) && n % 64 == 0 && 0 < n && n <= len(p) && len(p) - n < 64
+//@   assert before call block#2: 64 * ((L + PL - len(p)) / 64) == L + PL - len(p) && 64 * (n / 64) == n
+//@   assert before call block#2: forall i :: 0 <= i && i < 8 ==> d.h[i] == SM3F(SM3IV(), M2, 0, (L + PL - len(p)) / 64)[i]
+//@   assert before call block#2: forall j :: 0 <= j && j < n ==> M2[L + PL - len(p) + j] == p[j]
+//@   assert before call block#2: forall j :: 0 <= j && j < 64 * (n / 64) ==> M2[64 * ((L + PL - len(p)) / 64) + j] == p[j]
+//@   apply before call block#2: sm3_app(arr(d.h), SM3IV(), M2, (L + PL - len(p)) / 64, arr(p), offof(p), n / 64)
+//@   assert after call block#2: forall i :: 0 <= i && i < 8 ==> d.h[i] == SM3F(SM3IV(), M2, 0, (L + PL - len(p)) / 64 + n / 64)[i]
+//@   assert after call block#2: (L + PL - len(p)) / 64 + n / 64 == (L + PL - len(p) + n) / 64
+
+// assembly: assumed to stay inside the buffers they are given (bounded differential checks in
+// /verif/bounded back these assumptions); weak frame = whole element heaps
+//@ func blockMultBy4 trusted property C01
+//@   requires blocks >= 1
+//@   modifies heap H_u32, heap H_u8
+//@ func copyResultsBy4 trusted property C01
+//@   modifies heap H_u8
+//@ func blockMultBy8 trusted property C01
+//@   requires blocks >= 1
+//@   modifies heap H_u32, heap H_u8
+//@ func copyResultsBy8 trusted property C01
+//@   modifies heap H_u8
+
+//@ func prepareInitData property C01,C10
+//@   requires 0 <= baseMD.nx && baseMD.nx < 64 && lenStart <= 64 && len(p) >= baseMD.nx + 4 + lenStart + 8
+//@   modifies p[0..len(p)]
+
+//@ func kdfBy4 property C01,C10
+//@   requires 0 <= baseMD.nx && baseMD.nx < 64 && baseMD.nx == baseMD.len % 64
+//@   requires 0 <= limit && limit <= 134217727 && 0 <= keyLen && keyLen <= limit * 32
+//@   ensures len(result) == keyLen
+//@   modifies heap H_u32, heap H_u8
+//@   assert before call blockMultBy4#1: blocks * 64 == baseMD.nx + 4 + t + 8
+//@   loop 2 invariant 0 <= i && i <= times && sameobj(ret, k) && len(ret) == limit * 32 - i * 128 && len(k) == limit * 32
+//@   loop 2 decreases times - i
+//@   loop 4 invariant 0 <= i && i <= remain && sameobj(ret, k) && len(ret) == limit * 32 - times * 128 && len(k) == limit * 32
+//@   loop 4 decreases remain - i
+
+//@ func kdfGeneric property C01,C10
+//@   requires 0 <= baseMD.nx && baseMD.nx < 64 && baseMD.nx == baseMD.len % 64
+//@   requires 0 <= limit && limit <= 134217727 && 0 <= keyLen && keyLen <= limit * 32 && (limit - 1) * 32 < keyLen
+//@   ensures len(result) == keyLen
+//@   modifies nothing
+//@   loop 1 invariant 0 <= i && i <= limit
+//@   loop 1 decreases limit - i
